@@ -16,7 +16,7 @@ import subprocess
 import sys
 import time
 
-VERIF = "/verif"
+VERIF = os.path.dirname(os.path.dirname(os.path.abspath(__file__)))   # the checkout this file lives in
 sys.path.insert(0, VERIF)
 PYVT = "python3-vt"
 NATIVE_PY = "/venv/bin/python"
